@@ -463,3 +463,78 @@ Definition operands_ok (o : aop) : bool :=
   | AAddProfile _ _ g => nonempty g && forallb profile_ok g
   | _ => true
   end.
+
+(* ------------------------------------------------------------------ operands parsed from texts *)
+(* Entry::from_str / Relation::from_str of the text of a well-formed entry  lead r ("|" ws r')*
+   (a relation: no alternatives): the handle points INTO the parsed tree *)
+Inductive pop : Type :=
+| PPush (lead : str) (r : rel) (alts : list (str * rel))
+| PInsert (i : nat) (lead : str) (r : rel) (alts : list (str * rel))
+| PReplace (i : nat) (lead : str) (r : rel) (alts : list (str * rel))
+| PEPush (i : nat) (lead : str) (r : rel)
+| PEReplace (i j : nat) (lead : str) (r : rel).
+Definition entry_field (lead : str) (r : rel) (alts : list (str * rel)) : rfield := mk_rfield lead (IEntry r alts) [].
+Definition entry_text (lead : str) (r : rel) (alts : list (str * rel)) : str := rrender (entry_field lead r alts).
+Definition pcompile (o : pop) : list op :=
+  match o with
+  | PPush lead r alts => [ONewEntry 1 (ESParse (entry_text lead r alts)); OPush 1]
+  | PInsert i lead r alts => [ONewEntry 1 (ESParse (entry_text lead r alts)); OInsert i 1]
+  | PReplace i lead r alts => [ONewEntry 1 (ESParse (entry_text lead r alts)); OReplace i 1]
+  | PEPush i lead r => [ONewRel 1 (RSParse (entry_text lead r [])); OGetEntry 0 i; OEPush 0 1]
+  | PEReplace i j lead r => [ONewRel 1 (RSParse (entry_text lead r [])); OGetEntry 0 i; OEReplace 0 j 1]
+  end.
+(* the nodes the handles point at *)
+Definition ptop (o : pop) : top :=
+  match o with
+  | PPush _ r alts => TPush (Node ENTRY (rels_elems r alts true))
+  | PInsert i _ r alts => TInsert i (Node ENTRY (rels_elems r alts true))
+  | PReplace i _ r alts => TReplace i (Node ENTRY (rels_elems r alts true))
+  | PEPush i _ r => TEPush i (rel_tree r true)
+  | PEReplace i j _ r => TEReplace i j (rel_tree r true)
+  end.
+Definition a_pop (o : pop) (l : lroot) : option lroot :=
+  match o with
+  | PPush _ r alts => Some (a_push l (lentry_of r alts true))
+  | PInsert i _ r alts => Some (a_insert l i (lentry_of r alts true))
+  | PReplace i _ r alts => a_replace l i (lentry_of r alts true)
+  | PEPush i _ r => a_on_entry l i (fun e => a_epush e (lrel_of r true))
+  | PEReplace i j _ r =>
+      match nth_entry l i with
+      | Some (ci, e) => if j <? n_rels e then Some (replace_at ci (RE (a_ereplace e j (lrel_of r true))) l) else None
+      | None => None
+      end
+  end.
+Definition entry_content (r : rel) (alts : list (str * rel)) : list relx :=
+  rel_content r :: map (fun wr => rel_content (snd wr)) alts.
+Definition pxstep (f : list (list relx)) (o : pop) : list (list relx) :=
+  match o with
+  | PPush _ r alts => f ++ [entry_content r alts]
+  | PInsert i _ r alts => l_insert i (entry_content r alts) f
+  | PReplace i _ r alts => l_replace i (entry_content r alts) f
+  | PEPush i _ r => upd_nth i (fun e => e ++ [rel_content r]) f
+  | PEReplace i j _ r => upd_nth i (l_replace j (rel_content r)) f
+  end.
+Definition p_in_range (f : list (list relx)) (o : pop) : bool :=
+  match o with
+  | PPush _ _ _ | PInsert _ _ _ _ => true
+  | PReplace i _ _ _ | PEPush i _ _ => i <? length f
+  | PEReplace i j _ _ => match nth_error f i with Some e => j <? length e | None => false end
+  end.
+Definition poperands_ok (o : pop) : bool :=
+  match o with
+  | PPush lead r alts | PInsert _ lead r alts | PReplace _ lead r alts => wf_rfield false (entry_field lead r alts)
+  | PEPush _ lead r | PEReplace _ _ lead r => wf_rfield false (entry_field lead r [])
+  end.
+
+(* histories mixing both kinds of operands *)
+Inductive gop : Type := GA (o : aop) | GP (o : pop).
+Definition gcompile (o : gop) : list op := match o with GA o => compile o | GP o => pcompile o end.
+Definition g_op (o : gop) (l : lroot) : option lroot := match o with GA o => a_op o l | GP o => a_pop o l end.
+Definition gxstep (f : list (list relx)) (o : gop) : list (list relx) := match o with GA o => xstep f o | GP o => pxstep f o end.
+Definition g_in_range (f : list (list relx)) (o : gop) : bool := match o with GA o => x_in_range f o | GP o => p_in_range f o end.
+Definition goperands_ok (o : gop) : bool := match o with GA o => operands_ok o | GP o => poperands_ok o end.
+Fixpoint g_ops (ops : list gop) (l : lroot) : option lroot :=
+  match ops with
+  | [] => Some l
+  | o :: rest => match g_op o l with Some l' => g_ops rest l' | None => None end
+  end.
